@@ -218,10 +218,14 @@ llm_rails_instances = {}
 llm_rails_events_history_cache = {}
 
 
-def _generate_cache_key(config_ids: List[str]) -> str:
-    """Generates a cache key for the given config ids."""
+def _generate_cache_key(config_ids: List[str]) -> tuple:
+    """Generates a cache key for the given config ids.
 
-    return "-".join((config_ids))  # remove sorted
+    The key must be injective: joining the ids with a separator would make
+    ["a", "b"] and ["a-b"] share one cache entry.
+    """
+
+    return tuple(config_ids)
 
 
 def _get_rails(config_ids: List[str]) -> LLMRails:
@@ -530,13 +534,14 @@ def start_auto_reload_monitoring():
                         and os.path.isfile(event.src_path)
                     ):
                         # We just remove the config from the cache so that a new one is used next time
-                        if config_id in llm_rails_instances:
-                            instance = llm_rails_instances[config_id]
-                            del llm_rails_instances[config_id]
+                        cache_key = _generate_cache_key([config_id])
+                        if cache_key in llm_rails_instances:
+                            instance = llm_rails_instances[cache_key]
+                            del llm_rails_instances[cache_key]
                             if instance:
                                 val = instance.events_history_cache
                                 # We save the events history cache, to restore it on the new instance
-                                llm_rails_events_history_cache[config_id] = val
+                                llm_rails_events_history_cache[cache_key] = val
 
                             log.info(
                                 f"Configuration {config_id} has changed. Clearing cache."
